@@ -43,6 +43,18 @@ pub fn gen(tier: &str, r: &mut Rng) -> Vec<String> {
         if i % 5 == 0 { out.push(format!("c14 contacts {} {}", *r.pick(&[0i64, -8 * U]), s.line())); }
         // R*-tree clause: decided by the tie alone
         let q: Vec<String> = (0..budget(tier, 8, 40)).map(|_| format!("{} {} {} {}", r.range(-220, 220) * U, r.range(-220, 220) * U, r.range(-220, 220) * U, (2 * r.range(0, 300) + 1) * U / 2)).collect();
+        // queries right next to an atom with radii below and around one ångström (a bound that mixes up a distance
+        // with its square is wrong exactly there), and nearest-neighbour queries closer than 1 Å to their answer
+        let mut q = q;
+        let pos: Vec<(i64, i64, i64)> = s.models.iter().flat_map(|m| m.chains.iter()).flat_map(|c| c.residues.iter()).flat_map(|x| x.confs.iter()).flat_map(|f| f.atoms.iter()).map(|a| (a.x, a.y, a.z)).collect();
+        if !pos.is_empty() {
+            for _ in 0..budget(tier, 6, 30) {
+                let c = *r.pick(&pos);
+                let axis = r.below(4);
+                let off = |r: &mut Rng, k: usize| if axis == 3 || axis == k { r.range(-9, 9) * U } else { 0 };
+                q.push(format!("{} {} {} {}", c.0 + off(r, 0), c.1 + off(r, 1), c.2 + off(r, 2), (2 * r.range(0, 12) + 1) * U / 2));
+            }
+        }
         out.push(format!("c14 rtree {} ; {}", s.line(), q.join(" ")));
     }
     let np = budget(tier, 3000, 100_000);
